@@ -127,6 +127,13 @@ func c18cases(tier string) []c18case {
 		}
 	}
 	add(c18case{Execs: []string{"triv", "triv"}, Waits: []string{"wtask"}, Mode: "single", K: 1, Sched: "latefast"})
+	// B'. a slow starter: the goroutine running StartAll is kept for 40 ms between the start event's Trigger and its
+	//     next statement while the started process runs on and emits well over ten traces (whoever reads the process's
+	//     traces for the set must be reading by then — each process alone, with a reading subscriber, completes)
+	for _, s := range [][]string{{"long"}, {"longtask"}, {"long", "task"}, {"task", "long", "longtask"}} {
+		add(c18case{Execs: s, Mode: "single", K: 1, Sched: "slowstart"})
+		add(c18case{Execs: s, Mode: "seq", K: 2, Sched: "free"})
+	}
 	// C. message flows
 	type mf struct {
 		e, w []string
@@ -265,6 +272,18 @@ func c18graph(id, shape string, executable bool) *eng.Graph {
 		chain(f, a, j)
 		chain(f, b, j)
 		chain(j, en)
+	case "long": // five pass-through gateways: well over ten traces before anybody answers anything
+		ns := []*eng.Node{st}
+		for k := 1; k <= 5; k++ {
+			ns = append(ns, g.Add("exclusiveGateway", fmt.Sprintf("x%d", k), ""))
+		}
+		chain(append(ns, en)...)
+	case "longtask":
+		ns := []*eng.Node{st}
+		for k := 1; k <= 5; k++ {
+			ns = append(ns, g.Add("exclusiveGateway", fmt.Sprintf("x%d", k), ""))
+		}
+		chain(append(ns, task("A"), en)...)
 	case "thr0":
 		chain(st, throw(), en)
 	case "thr1":
@@ -545,6 +564,28 @@ func c18sub(spec string) {
 		ctl.Hold(pSub)
 		held = pSub
 		c18say("sched hold %s %s", pSub, c.Sched)
+	}
+	if c.Sched == "slowstart" {
+		const pAfter = "process.startwith.after_trigger"
+		stop := make(chan struct{})
+		var hw sync.WaitGroup
+		hw.Add(1)
+		go func() {
+			defer hw.Done()
+			for {
+				a := ctl.Hold(pAfter)
+				select {
+				case <-a:
+					time.Sleep(40 * time.Millisecond)
+					ctl.Release(pAfter)
+				case <-stop:
+					ctl.Release(pAfter)
+					return
+				}
+			}
+		}()
+		defer func() { close(stop); hw.Wait() }()
+		c18say("sched slow %s 40ms", pAfter)
 	}
 	s, err := eng.NewSet(defs, func(l string) { c18say("%s", l) })
 	if err != nil {
